@@ -38,7 +38,12 @@ func runC07(r *Run) error {
 	pool := []string{"Doc1", "doc1", "DOC", "doc", "a.b", "x-1", "Zed"}
 	searches := []string{"doc", "Doc1", "DOC1", "oc", "a.b", "A.B", "x", "q", "ed", "1"}
 	ctx := context.Background()
+	master := r.Rng
+	defer func() { r.Rng = master }()
 	for hi := 0; hi < hists; hi++ {
+		if !kvHistoryRng(r, master, hi) {
+			continue
+		}
 		n := 1 + r.Rng.Intn(3)
 		s, err := NewScen(n, "docstore", nil)
 		if err != nil {
@@ -47,7 +52,7 @@ func runC07(r *Run) error {
 		u := s.NewUniverse()
 		nk := 1 + r.Rng.Intn(len(pool))
 		keys := pool[:nk]
-		steps := 5 + r.Rng.Intn(12)
+		steps := 7 + r.Rng.Intn(16)
 		prev := make([]map[string][]byte, n)
 		for i := range prev {
 			prev[i] = map[string][]byte{}
@@ -57,9 +62,15 @@ func runC07(r *Run) error {
 			ver++
 			return map[string]interface{}{"_id": k, "v": ver}
 		}
-		observe := func(rep int, step int, what string) error {
+		routes := newKvRoutes(n, hi)
+		observe := func(rep int, step int, what string, fresh bool) error {
+			if fresh {
+				// the reopened store has a new, empty index
+				prev[rep] = map[string][]byte{}
+			}
 			st := s.Stores[rep].(iface.DocumentStore)
 			listing := u.Note(st.OpLog().Values().Slice())
+			sig := routes.seen(rep, listing, fresh)
 			docs, err := st.Query(ctx, func(interface{}) (bool, error) { return true, nil })
 			if err != nil {
 				return err
@@ -108,7 +119,7 @@ func runC07(r *Run) error {
 				r.Count(fmt.Sprintf("get ci=%v partial=%v", ci, pa))
 			}
 			r.AddCase(fmt.Sprintf("(CDoc %s %s %s %s %s)", u.Name, coqKvMap(s.Canon, prev[rep]), sim.CoqListN(listing), coqKvMap(s.Canon, all), sim.CoqList(gets)),
-				map[string]interface{}{"kind": "doc", "hist": hi, "step": step, "replica": rep, "after": what, "entries": len(listing)}, len(listing) >= 2)
+				map[string]interface{}{"kind": "doc", "sig": sig, "hist": hi, "step": step, "replica": rep, "after": what, "entries": len(listing)}, len(listing) >= 2)
 			prev[rep] = all
 			return nil
 		}
@@ -118,7 +129,17 @@ func runC07(r *Run) error {
 			k := keys[r.Rng.Intn(len(keys))]
 			var err error
 			what := ""
-			switch c := r.Rng.Intn(12); {
+			switch c := r.Rng.Intn(17); {
+			case c >= 12:
+				// snapshots, restarts, limited loads (kvRoutes, c06.go): observed after every call
+				err = routes.step(r, s, rep, map[string]interface{}{"hist": hi, "step": st}, func(what string, fresh bool) error {
+					return observe(rep, st, what, fresh)
+				})
+				if err != nil {
+					return fmt.Errorf("hist %d step %d replica %d: %w", hi, st, rep, err)
+				}
+				r.Count("route")
+				continue
 			case c < 3:
 				_, err = ds.Put(ctx, mk(k))
 				what = "put"
@@ -167,10 +188,11 @@ func runC07(r *Run) error {
 				return err
 			}
 			r.Count(what)
-			if err := observe(rep, st, what); err != nil {
+			if err := observe(rep, st, what, false); err != nil {
 				return err
 			}
 		}
+		kvProbeEnd(hi)
 		r.Pre = append(r.Pre, u.Def())
 		s.Settle()
 		s.Close()
